@@ -290,7 +290,8 @@ impl From<IotaDID> for CoreDID {
 
 impl From<IotaDID> for String {
   fn from(did: IotaDID) -> Self {
-    did.into_string()
+    // Not `did.into_string()`: the `DID` trait implements that through this very conversion.
+    did.0.into()
   }
 }
 
